@@ -162,6 +162,7 @@ Proof.
   intros w v m fs H. unfold finalize.
   destruct (w_finalized w); [exact H|].
   destruct ((U16MAX <? vt_width v) || (U16MAX <? vt_height v)); [exact H|].
+  destruct (param_sets_too_long (w_vconfig w)) eqn:Gps; [exact H|].
   destruct (if fs then finalize_fast_start w v m (effective_config w)
             else finalize_standard w v m (effective_config w)) as [bufs term].
   destruct (run_plan bufs (w_bytes_written w) (w_sink w)) as [[bw s] e].
@@ -471,6 +472,7 @@ Proof.
   intros w v m fs p Hne Hsm. unfold finalize.
   destruct (w_finalized w); [cbn [snd]; discriminate|].
   destruct ((U16MAX <? vt_width v) || (U16MAX <? vt_height v)); [cbn [snd]; discriminate|].
+  destruct (param_sets_too_long (w_vconfig w)) eqn:Gps; [cbn [snd]; discriminate|].
   cbv zeta. apply finalize_plan_no_panic.
   destruct fs; [apply finalize_fast_start_no_panic|apply finalize_standard_no_panic]; assumption.
 Qed.
@@ -601,12 +603,13 @@ Print Assumptions cursor_overflow_plan_panics.
 Theorem cursor_overflow_panics : forall w v m track,
   NonEmptyInv w -> w_audio w = Some track ->
   w_finalized w = false -> vt_width v <= 65535 -> vt_height v <= 65535 ->
+  param_sets_too_long (w_vconfig w) = false ->
   sk_script (w_sink w) = [] ->
   8 + payload_total w <= 4294967295 -> 4294967295 < 32 + payload_total w ->
   snd (finalize w v m false) = FinErr (FinPanic PanicCursorOverflow).
 Proof.
-  intros w v m track Hne Hau Hfin Hvw Hvh Hs Hlo Hhi.
-  unfold finalize. rewrite Hfin, (dims_ok v Hvw Hvh). cbv zeta.
+  intros w v m track Hne Hau Hfin Hvw Hvh Hps Hs Hlo Hhi.
+  unfold finalize. rewrite Hfin, (dims_ok v Hvw Hvh), Hps. cbv zeta.
   apply finalize_with_plan_panics; [exact Hs|].
   eapply cursor_overflow_plan_panics; eauto.
 Qed.
@@ -629,13 +632,14 @@ Print Assumptions duration_overflow_plan_panics.
 
 Theorem duration_overflow_panics : forall w v m,
   w_finalized w = false -> vt_width v <= 65535 -> vt_height v <= 65535 ->
+  param_sets_too_long (w_vconfig w) = false ->
   sk_script (w_sink w) = [] ->
   8 + payload_total w <= 4294967295 ->
   18446744073709551615 < sumN (durations_of (vsamples w) (w_vlast_delta w)) * 1000 ->
   snd (finalize w v m true) = FinErr (FinPanic PanicMovieDurationOverflow).
 Proof.
-  intros w v m Hfin Hvw Hvh Hs Hlo Hd.
-  unfold finalize. rewrite Hfin, (dims_ok v Hvw Hvh). cbv zeta.
+  intros w v m Hfin Hvw Hvh Hps Hs Hlo Hd.
+  unfold finalize. rewrite Hfin, (dims_ok v Hvw Hvh), Hps. cbv zeta.
   apply finalize_with_plan_panics; [exact Hs|].
   rewrite (duration_overflow_plan_panics w v m (effective_config w) Hlo Hd). reflexivity.
 Qed.
@@ -652,14 +656,15 @@ Qed.
 
 Theorem empty_sample_panics : forall w v m,
   w_finalized w = false -> vt_width v <= 65535 -> vt_height v <= 65535 ->
+  param_sets_too_long (w_vconfig w) = false ->
   sk_script (w_sink w) = [] -> w_audio w = None ->
   8 + payload_total w <= 4294967295 ->
   sumN (durations_of (vsamples w) (w_vlast_delta w)) * 1000 <= 18446744073709551615 ->
   (exists s, In s (vsamples w) /\ s_data s = []) ->
   snd (finalize w v m true) = FinErr (FinPanic PanicStszZeroSize).
 Proof.
-  intros w v m Hfin Hvw Hvh Hs Hau Hlo Hd Hz. unfold payload_total in Hlo.
-  unfold finalize. rewrite Hfin, (dims_ok v Hvw Hvh). cbv zeta.
+  intros w v m Hfin Hvw Hvh Hps Hs Hau Hlo Hd Hz. unfold payload_total in Hlo.
+  unfold finalize. rewrite Hfin, (dims_ok v Hvw Hvh), Hps. cbv zeta.
   apply finalize_with_plan_panics; [exact Hs|].
   unfold finalize_fast_start, U32MAX. rewrite Hau.
   destruct (4294967295 <? 8 + payload_sum (vsamples w) + payload_sum (asamples w)) eqn:E; [lia|].
